@@ -6,8 +6,9 @@
    the blacklist (Blacklist.v, C19). File contents come from the abstract file tree of StaticFs.v (C06); the configuration
    is the record Config.load produces from the configuration text (C15). The response cache is not part of this model
    (C16 models it; the end-to-end cases of this model run with the cache off or compare cache-transparent answers), nor are
-   plugins, TLS and the WebSocket pass-through. Definitions only. *)
-From Hv Require Import Prelude Bytes TablesHttp TablesConfig TablesWs Http Krauss Routing Blacklist StaticFs Config.
+   plugins, TLS and the WebSocket pass-through. For a proxy route `forwarded_bytes` gives the bytes proxy_handler writes
+   to the chosen target (Proxy.v, C09). Definitions only. *)
+From Hv Require Import Prelude Bytes TablesHttp TablesConfig TablesWs Http Krauss Routing Blacklist StaticFs Config Proxy.
 Open Scope N_scope.
 
 (* str::chars of a (valid) UTF-8 byte string: the matcher works on characters *)
@@ -175,10 +176,23 @@ Section Server.
       end
     end.
 
+  (* proxy_handler: what is written to the target of a proxy route — the request with the route's literal prefix stripped
+     and one more X-Forwarded-For naming its origin address (None: not proxied, or String::remove on an empty path) *)
+  Definition forwarded_bytes (c : config) (p : peer) (req : request) : option bytes :=
+    match server_response c p req with
+    | SProxy _ _ mt => option_map (upstream_bytes req) (rewrite_uri mt (r_uri req))
+    | _ => None
+    end.
+
   (* from the configuration text: what the server started with this file answers (None: the file does not load) *)
   Definition serve_text (files : bytes -> fentry) (file conf : bytes) (p : peer) (req : request) : option sresp :=
     match load ipp files file conf with
     | ROk c => Some (server_response c p req)
+    | _ => None
+    end.
+  Definition forwarded_text (files : bytes -> fentry) (file conf : bytes) (p : peer) (req : request) : option bytes :=
+    match load ipp files file conf with
+    | ROk c => forwarded_bytes c p req
     | _ => None
     end.
 End Server.
